@@ -502,7 +502,7 @@ def numeric_equal(impl_line, model_line, tol):
     return True
 
 
-def numeric_stats(impl, model, differs, ids=None, annotation_keys=("fin",)):
+def numeric_stats(impl, model, differs, ids=None, annotation_keys=("fin",), case_lines=None):
     """Statistics of a numeric comparison: how many lines are textually identical once annotations are
     dropped (bit patterns `b:…` equal = bit-exact), how many agree only within the tolerance, and a
     histogram of the model's `~key=value` annotations against the implementation's tokens named in
@@ -510,6 +510,7 @@ def numeric_stats(impl, model, differs, ids=None, annotation_keys=("fin",)):
     attribute lines, `real-map` otherwise)."""
     exact = within = 0
     hist = {}
+    by_kind = {}
     for i, (a, b, d) in enumerate(zip(impl, model, differs)):
         ann = [t for t in b.split() if t.startswith("~")]
         core = " ".join(t for t in b.split() if not t.startswith("~"))
@@ -519,13 +520,19 @@ def numeric_stats(impl, model, differs, ids=None, annotation_keys=("fin",)):
             exact += 1
         else:
             within += 1
+        if case_lines and i < len(case_lines):
+            kind = " ".join(case_lines[i].split()[:2])
+            if kind.startswith(("PP ", "OSK ")):
+                e = by_kind.setdefault(kind, [0, 0])
+                e[0 if a == core else 1] += 1
         if ann:
             keep = [t for t in a.split() if t.partition("=")[0] in annotation_keys]
             cid = ids[i] if ids and i < len(ids) else ""
             cls = "-".join(cid.split("-")[:3]) if cid.startswith("pp-") else "real-map"
             k = cls + ": " + " ".join(ann) + " | " + " ".join(keep)
             hist[k] = hist.get(k, 0) + 1
-    return {"bit_exact_lines": exact, "within_tolerance_only": within, "annotations": hist}
+    return {"bit_exact_lines": exact, "within_tolerance_only": within, "annotations": hist,
+            "bit_exact_vs_within_tolerance_by_kind": {k: {"bit_exact": v[0], "within_tolerance_only": v[1]} for k, v in sorted(by_kind.items())}}
 
 
 def load_known():
